@@ -655,6 +655,62 @@ func (e *IntervalEnv) ProvedNonNeg(v ssa.Value, b *ssa.BasicBlock) bool {
 	return false
 }
 
+// ProvedNonNegDeep: like ProvedNonNeg, but a phi is proved edge by edge with the facts that hold
+// on each incoming edge (a value clamped on one branch: `if m > 0 && n > m { n = m }`).
+func (e *IntervalEnv) ProvedNonNegDeep(v ssa.Value, b *ssa.BasicBlock) bool {
+	return e.provedNonNegDeep(v, b, 0)
+}
+
+func (e *IntervalEnv) provedNonNegDeep(v ssa.Value, b *ssa.BasicBlock, depth int) bool {
+	if e.ProvedNonNeg(v, b) {
+		return true
+	}
+	phi, ok := SxStripConv(v).(*ssa.Phi)
+	if !ok || depth > 3 {
+		return false
+	}
+	if phi != v {
+		// a narrowing conversion of the phi could change the sign; only widening or same-size ones are followed
+		if sizeOfInt(v.Type()) < sizeOfInt(phi.Type()) {
+			return false
+		}
+	}
+	for i, ed := range phi.Edges {
+		pred := phi.Block().Preds[i]
+		if e.provedNonNegDeep(ed, pred, depth+1) {
+			continue
+		}
+		iv := e.Of(ed)
+		pv := e.Poly.Of(ed)
+		for _, f := range e.Poly.EdgeFacts(pred, phi.Block()) {
+			iv = iv.Meet(boundFromFact(f, pv))
+		}
+		if iv.NonNeg() || ProvesFrom(e.Poly.EdgeFacts(pred, phi.Block()), Cmp{P: pv, Rel: GE}) {
+			continue
+		}
+		return false
+	}
+	return true
+}
+
+func sizeOfInt(t types.Type) int {
+	if b, ok := t.Underlying().(*types.Basic); ok {
+		switch b.Kind() {
+		case types.Int8, types.Uint8:
+			return 1
+		case types.Int16, types.Uint16:
+			return 2
+		case types.Int32, types.Uint32:
+			return 4
+		case types.Int64, types.Uint64:
+			return 8
+		case types.Int, types.Uint, types.Uintptr:
+			return 4 // the smaller of the two supported word sizes
+		}
+	}
+	return 0
+}
+
 func (e *IntervalEnv) ProvedNonZero(v ssa.Value, b *ssa.BasicBlock) bool {
 	return e.At(v, b).NonZero() || e.Poly.Proves(b, Cmp{P: e.Poly.Of(v), Rel: NE}) || e.Poly.Proves(b, Cmp{P: e.Poly.Of(v), Rel: GT})
 }
